@@ -126,8 +126,66 @@ fn complements<C: CI + ComplementMut>(ctx: &mut Ctx) {
     });
 }
 
+/// first use of every decoder raced from 8 threads (lazily built process-wide tables must not be
+/// observable half-built); re-run in fresh processes and under Miri with many scheduler seeds
+fn race<C: CI>(ctx: &mut Ctx) {
+    let a = C::alpha();
+    let name = C::NAME;
+    let chars = a.chars();
+    let codes: Vec<u8> = (0..=255u8).filter(|b| (a.bits == 8 || (*b as u16) < (1u16 << a.bits)) && a.canon(*b).is_some()).collect();
+    let go = std::sync::atomic::AtomicUsize::new(0);
+    let bad: Vec<Vec<String>> = std::thread::scope(|sc| {
+        let hs: Vec<_> = (0..8usize)
+            .map(|t| {
+                let (chars, codes, go) = (&chars, &codes, &go);
+                sc.spawn(move || {
+                    let mut bad = Vec::new();
+                    // spin barrier: release all threads at once
+                    go.fetch_add(1, std::sync::atomic::Ordering::SeqCst);
+                    let mut spins = 0u32;
+                    while go.load(std::sync::atomic::Ordering::SeqCst) < 8 && spins < 2_000_000 {
+                        std::hint::spin_loop();
+                        spins += 1;
+                    }
+                    // each thread starts at a different end of the tables
+                    for k in 0..chars.len() {
+                        let c = chars[if t % 2 == 0 { k } else { chars.len() - 1 - k }];
+                        let tr = C::try_from_ascii(c);
+                        let un = std::panic::catch_unwind(|| C::unsafe_from_ascii(c));
+                        match (tr, un) {
+                            (Some(x), Ok(y)) if x == y && Some(x.to_bits()) == a.code_of_char(c) => {}
+                            (tr, un) => bad.push(format!("thread {t}: try_from_ascii({:?}) = {:?}, unsafe_from_ascii = {:?}", c as char, tr, un.ok())),
+                        }
+                    }
+                    for k in 0..codes.len() {
+                        let b = codes[if t % 2 == 0 { k } else { codes.len() - 1 - k }];
+                        let tr = C::try_from_bits(b);
+                        let un = std::panic::catch_unwind(|| C::unsafe_from_bits(b));
+                        match (tr, un) {
+                            (Some(x), Ok(y)) if x == y && Some(x.to_bits()) == a.canon(b) => {}
+                            (tr, un) => bad.push(format!("thread {t}: try_from_bits({b:#b}) = {:?}, unsafe_from_bits = {:?}", tr, un.ok())),
+                        }
+                    }
+                    bad
+                })
+            })
+            .collect();
+        hs.into_iter().map(|h| h.join().unwrap_or_else(|_| vec!["a racing thread panicked".to_string()])).collect()
+    });
+    for b in bad.into_iter().flatten() {
+        check!(ctx, false, format!("first-use-race|{name}|decoders-disagree"), "{b}");
+    }
+    ctx.eval();
+}
+
 fn main() {
     run_main("C05", |ctx| {
+        // must run before anything else touches the decoders
+        ctx.group("first-use-race", |ctx| {
+            for_each_codec!(race, ctx);
+            cell!(ctx, "race/8-threads-x-7-codecs");
+            ctx.count("race-threads", 8);
+        });
         for_each_codec!(tables, ctx);
         for_each_comp_codec!(complements, ctx);
         // copying form on single symbols where implemented
